@@ -276,6 +276,7 @@ def step (st : State) (toks : List String) : Option (State × String) :=
     some (withPkg st fun s =>
       let (s', r) := Pkg.flush s
       match mode, r with
+      | _, .err .unmodelled => ({ st with pkg := none }, "err UNMODELLED")
       | "into_inner", .err k => ({ st with pkg := none }, "close-err " ++ k.toString)
       | "flush", .err k => ({ st with pkg := some s' }, "close-err " ++ k.toString)
       | _, .panic _ => ({ st with pkg := none }, "panic")
